@@ -12,7 +12,8 @@ mod=importlib.import_module('harness.props.'+pid)
 import os
 ctx=core.Ctx(pid,os.environ.get('VERIF_TIER','quick'),int(os.environ.get('VERIF_SEED','0')),'/repo')
 t=time.time()
-res=mod.run(ctx,{"driver":True})
+import json
+res=mod.run(ctx,{"driver":True,"translate":json.load(open("/verif/lean/Bluebell/Gen/status.json"))})
 print('time %.1f'%(time.time()-t))
 for o in ctx.obligations: print(o['ok'], o['name'][:80], '|', o['detail'][:160])
 for f in [x for x in res['failures'] if not x.get('finding')][:8]: print('  FAIL', f['kind'], f.get('finding'), f['summary'][:300])
